@@ -110,9 +110,10 @@ def _wants_more_than_the_encoding(ex, e):
 
 
 def _rejected(ex, e):
-    """Catalogue shapes whose validity is beyond doubt (a plain OCTET STRING, SEQUENCE {INTEGER, OCTET STRING}) and
-    that decode at every smaller size: a rejection can only come from the length / consumption bookkeeping."""
-    return W.Violation('plain-element-rejected-at-this-length', tail_kind='none', exc_cls=type(ex).__name__,
+    """Catalogue shapes whose validity is beyond doubt (a plain OCTET STRING, SEQUENCE {INTEGER, OCTET STRING}; the
+    scale shapes: wide records, long collections, many alternatives, tag stacks over plain leaves) and that decode
+    at every smaller size or count: a rejection can only come from the length / count / consumption bookkeeping."""
+    return W.Violation('plain-shape-rejected-at-this-scale', tail_kind='none', exc_cls=type(ex).__name__,
                        site=W.exc_site(ex), msg=str(ex)[:120], length=len(e))
 
 
@@ -135,7 +136,7 @@ def _oneshot(plan, wl):
         bad = _wants_more_than_the_encoding(ex, e)
         if bad:
             return bad_result(bad, wl, e)
-        if plan.get('must_decode'):
+        if plan.get('must_decode') or plan['workload'].get('scale'):
             return bad_result(_rejected(ex, e), wl, e)
         return common.skip_result('reference:%s' % type(ex).__name__)
     if not isinstance(ref_v, U.p.base.Asn1Item):
@@ -164,7 +165,7 @@ def _oneshot(plan, wl):
                                   tail=t.hex()[:80])
             if not isinstance(rest, bytes) or rest != t:
                 raise W.Violation('remainder-differs', tail_kind=name, want=t.hex()[:120],
-                                  got=(bytes(rest).hex()[:120] if isinstance(rest, (bytes, bytearray)) else repr(rest)[:80]))
+                                  got=(bytes(rest).hex()[:120] if isinstance(rest, (bytes, bytearray)) else U.safe_repr(rest, 80)))
             if U.absval(v) != ref:
                 raise W.Violation('value-differs-with-tail', tail_kind=name)
             if t:
@@ -200,7 +201,7 @@ def _stream(plan, wl):
             bad = _wants_more_than_the_encoding(ex, e)
             if bad:
                 return bad_result(bad, wl, e)
-            if plan.get('must_decode'):
+            if plan.get('must_decode') or plan['workload'].get('scale'):
                 return bad_result(_rejected(ex, e), wl, e)
             return common.skip_result('reference:%s' % type(ex).__name__)
         if not isinstance(v, U.p.base.Asn1Item):
@@ -256,7 +257,7 @@ def _stream(plan, wl):
             if kind == W.ERR:
                 d = W.describe_exc(payload)
                 raise W.Violation('error-on-valid-stream', step=idx, exc_cls=d['cls'], msg=d['msg'], site=d['site'])
-            raise W.Violation('non-object-yielded', step=idx, what=repr(payload)[:80])
+            raise W.Violation('non-object-yielded', step=idx, what=U.safe_repr(payload, 80))
 
         try:
             for idx, step in enumerate(plan['steps']):
